@@ -30,10 +30,13 @@ func (e *BE) contractFor(fn *ssa.Function) *Contract {
 	}
 	if ip := e.inferredPost[g]; ip != nil {
 		// inferred size postcondition of a private helper (bounds4.go inferPost)
-		nc := &Contract{Note: ip.Note, PostOK: ip.PostOK}
+		nc := &Contract{Note: ip.Note}
 		if c != nil {
-			nc.Pre = c.Pre
+			cp := *c
+			nc = &cp
 		}
+		nc.PostOK = append(append([]CIneq{}, nc.PostOK...), ip.PostOK...)
+		nc.Post = append(append([]CIneq{}, nc.Post...), ip.Post...)
 		c = nc
 	}
 	extra := e.inferred[g]
@@ -323,6 +326,23 @@ func init() {
 		"internal/format.ListTable.Len", "internal/types.List.Len", "internal/types.Message.Fields", "internal/types.Message.Len"} {
 		ex[n] = nonneg()
 	}
+	// an entry count is at most the table's length in bytes (entries are >= 1 byte): a non-empty loop over the
+	// entries means a non-empty table, hence data size < total size - what makes the recursive parser descend (R02.2)
+	countLE := func(path string) *Contract {
+		c := nonneg()
+		if path == "" {
+			c.Post = append(c.Post, cLE(cR(0), cLenP(0)))
+		} else {
+			c.Post = append(c.Post, cLE(cR(0), cFieldP(0, path, 'l')))
+		}
+		return c
+	}
+	ex["internal/format.messageTable.count"] = countLE("")
+	ex["internal/format.listTable.len"] = countLE("")
+	ex["internal/format.MessageTable.Len"] = countLE(".table")
+	ex["internal/format.ListTable.Len"] = countLE(".table")
+	ex["internal/types.List.Len"] = countLE(".table.table")
+	ex["internal/types.Message.Fields"] = countLE(".table.table")
 	// decodeList / ParseList / OpenList...: results carry the List invariant (checked through hasInv)
 }
 
